@@ -212,11 +212,39 @@ def _parse(out, err, res):
             res.samples.append(line[7:])
         elif line.startswith("DONE "):
             res.done = int(line.split("=")[1])
+    _parse_race_reports(err, res)
     for m in _UBSAN_RE.finditer(err):
         f = os.path.basename(m.group(1))
         msg = re.sub(r"0x[0-9a-f]+", "ADDR", m.group(3))
         msg = re.sub(r"-?\d{3,}", "N", msg)
         res.ubsan.add("%s:%s %s" % (f, m.group(2), msg[:90]))
+
+
+def _parse_race_reports(err, res):
+    """ThreadSanitizer / helgrind report blocks -> res.reports [(tool, repo_funcs, all_funcs, head)]"""
+    src = os.path.join(os.path.abspath(REPO), "src") + "/"
+    if "ThreadSanitizer" in err:
+        for blk in err.split("WARNING: ThreadSanitizer:")[1:]:
+            blk = blk.split("SUMMARY: ThreadSanitizer")[0]
+            kind = blk.strip().splitlines()[0][:60] if blk.strip() else "?"
+            frames = re.findall(r"#\d+ (\S+) (\S+?):(\d+)", blk)
+            repo_funcs, allf = [], []
+            for fn, path, _ln in frames:
+                allf.append(fn)
+                if path.startswith(src) and fn not in repo_funcs:
+                    repo_funcs.append(fn)
+            res.reports.append(("tsan", kind, tuple(repo_funcs[:2]), tuple(allf[:6])))
+    if "Possible data race" in err:
+        for blk in err.split("Possible data race")[1:]:
+            blk = blk.split("----------------------------------------------------------------")[0]
+            frames = re.findall(r"(?:at|by) 0x[0-9A-Fa-f]+: (\S+) \((\S+?):(\d+)\)", blk)
+            srcfiles = {os.path.basename(f) for f in glob.glob(src + "*.[ch]")}
+            repo_funcs, allf = [], []
+            for fn, fname, _ln in frames:
+                allf.append(fn)
+                if fname in srcfiles and fn not in repo_funcs:
+                    repo_funcs.append(fn)
+            res.reports.append(("helgrind", "data race", tuple(repo_funcs[:2]), tuple(allf[:6])))
 
 
 def run_one(exe, args, timeout, env=None, wrapper=None):
